@@ -133,7 +133,100 @@ fn real_only(rng: &mut jjv::Rng) -> (Vec<bool>, String) {
         obs.push(matches!(res2, Outcome::Ok(_)) == last_ok);
         obs.push(list_disk(&ws2.root) == list_disk(&ws.root));
     }
-    (obs, (if conflicted { " +conflicts" } else { " +settings" }).to_string())
+    let _ = conflicted;
+    (obs, " +real".to_string())
+}
+
+/// Observations on the real code alone: checkouts between versions of the SAME conflicted
+/// tree (identical tree ids) that differ only in their conflict labels: unlabeled, labels
+/// A, labels B, in every direction, and unchanged. The marker lines of the conflict files
+/// carry the labels, so every switch must re-materialize them: after each checkout a
+/// snapshot must return the tree ids and labels just checked out, and a second workspace
+/// that checks the last version out from scratch must have the identical disk, byte for
+/// byte. `fixed` = the corpus sequence A -> unlabeled -> A -> B -> B.
+fn label_observations(rng: &mut jjv::Rng, fixed: bool) -> Vec<bool> {
+    use jj_lib::conflict_labels::ConflictLabels;
+    use jj_lib::merged_tree::MergedTree;
+    // a guaranteed file conflict plus random surroundings
+    let file = |c: &str| TVal::File(format!("{c}\nline\n"), false);
+    let mut base = if fixed { Tree::new() } else { gen_tree(rng, 0) };
+    let key: P = vec!["k".to_string()];
+    base.retain(|p, _| !is_prefix(p, &key) && !is_prefix(&key, p));
+    let (mut p1, mut p2) = (base.clone(), base.clone());
+    base.insert(key.clone(), file("base"));
+    p1.insert(key.clone(), file("one"));
+    p2.insert(key.clone(), file("two"));
+    if !fixed && rng.chance(1, 2) {
+        // a second conflict deeper in the tree
+        let key2: P = vec!["kd".to_string(), "e".to_string()];
+        base.insert(key2.clone(), file("b"));
+        p1.insert(key2.clone(), file("x"));
+        p2.insert(key2, TVal::File("y\nline\n".to_string(), true));
+    }
+    let build_ids = |ws: &Ws| {
+        let mut b = testutils::TestThreeWayMergeTreeBuilder::new(ws.store());
+        let fill = |tb: &mut testutils::TestTreeBuilder, t: &Tree| {
+            for (p, v) in t {
+                let rp = to_repo_path(p);
+                match v {
+                    TVal::File(c, x) => {
+                        tb.file(&rp, c.as_bytes()).executable(*x);
+                    }
+                    TVal::Sym(target) => tb.symlink(&rp, target),
+                }
+            }
+        };
+        fill(b.base(), &base);
+        fill(b.parent1(), &p1);
+        fill(b.parent2(), &p2);
+        pollster::FutureExt::block_on(b.write_merged_tree().resolve()).unwrap().tree_ids().clone()
+    };
+    let version = |ws: &Ws, ids: &jj_lib::merge::Merge<jj_lib::backend::TreeId>, v: u64| {
+        let n = ids.as_slice().len();
+        let labels = match v {
+            0 => ConflictLabels::unlabeled(),
+            1 => ConflictLabels::from_vec((0..n).map(|i| format!("side-a{i}")).collect()),
+            _ => ConflictLabels::from_vec((0..n).map(|i| format!("other label {i}")).collect()),
+        };
+        MergedTree::new(ws.store(), ids.clone(), labels)
+    };
+    let seq: Vec<u64> = if fixed {
+        vec![1, 0, 1, 2, 2]
+    } else {
+        (0..2 + rng.below(3)).map(|_| rng.below(3)).collect()
+    };
+    let mut obs = vec![];
+    // the disk of every version checked out from scratch
+    let mut scratch: Vec<Option<Disk>> = vec![None, None, None];
+    for v in 0..3u64 {
+        if seq.contains(&v) {
+            let mut ws0 = Ws::new();
+            let ids0 = build_ids(&ws0);
+            let tm0 = version(&ws0, &ids0, v);
+            obs.push(matches!(outcome(ws0.check_out(&tm0)), Outcome::Ok(_)));
+            scratch[v as usize] = Some(list_disk(&ws0.root));
+        }
+    }
+    let mut ws = Ws::new();
+    let ids = build_ids(&ws);
+    obs.push(!ids.is_resolved());
+    for v in &seq {
+        let tm = version(&ws, &ids, *v);
+        let res = outcome(ws.check_out(&tm));
+        obs.push(matches!(res, Outcome::Ok(ref s) if s.skipped_files == 0));
+        // path independence after every switch, marker lines included
+        obs.push(Some(list_disk(&ws.root)) == scratch[*v as usize]);
+        let snap = ws.snapshot();
+        obs.push(snap.is_some_and(|t| t.tree_ids_and_labels() == tm.tree_ids_and_labels()));
+    }
+    // the labels really are on disk: two differently labeled versions differ
+    if let (Some(a), Some(b)) = (&scratch[1], &scratch[2]) {
+        obs.push(a != b);
+    }
+    if let (Some(a), Some(b)) = (&scratch[0], &scratch[1]) {
+        obs.push(a != b);
+    }
+    obs
 }
 
 fn run_case(_i: usize, mut rng: jjv::Rng) -> CaseOut {
@@ -197,7 +290,11 @@ fn run_case(_i: usize, mut rng: jjv::Rng) -> CaseOut {
     panicked |= res2 == Outcome::Panic;
     let scratch = list_disk(&ws2.root);
 
-    let (obs, obs_shape) = if rng.chance(1, 2) { real_only(&mut rng) } else { (vec![], String::new()) };
+    let (mut obs, mut obs_shape) = if rng.chance(1, 2) { real_only(&mut rng) } else { (vec![], String::new()) };
+    if _i == 0 || rng.chance(1, 6) {
+        obs.extend(label_observations(&mut rng, _i == 0));
+        obs_shape.push_str(" +labels");
+    }
     let term = coq::app(
         "C24Chk.mk_case",
         &[
@@ -211,7 +308,7 @@ fn run_case(_i: usize, mut rng: jjv::Rng) -> CaseOut {
     );
     let shape = format!(
         "steps={}{}{}{}{}",
-        n_steps,
+        if n_steps >= 2 { "2+" } else { "1" },
         if is_sparse { " sparse" } else { "" },
         if has_untracked { " untracked" } else { "" },
         if all_ok { "" } else { " failed" },
